@@ -1,7 +1,7 @@
 (* C08 — treespec inspection, constructors, transform and compose are consistent.
    Statements only; proofs in proofs/SpecProofs.v and proofs/InspectProofs.v. *)
-From OptreeModel Require Import Base Tree Flatten Unflatten Spec ArraySpec Construct ComposeArr TransformArr.
-From OptreeProofs Require Import SpecProofs InspectProofs ArrayProofs ConstructProofs ComposeArrProofs TransformArrProofs.
+From OptreeModel Require Import Base Tree Flatten Unflatten Spec ArraySpec Construct ComposeArr TransformArr Repr.
+From OptreeProofs Require Import SpecProofs InspectProofs ArrayProofs ConstructProofs ComposeArrProofs TransformArrProofs ReprProofs.
 
 (* Every treespec flatten returns is the post-order encoding of a well-formed structured treespec
    (arity, num_leaves and num_nodes consistent at every node) whose leaf count is the number of
@@ -166,3 +166,32 @@ Theorem C08_cpp_transform_pass :
   match ss_transform_leaves a (Some b) with Ok j => Ok (spec_of j) | Err e => Err e end.
 Proof. exact arr_transform_leaves_spec. Qed.
 Print Assumptions C08_cpp_transform_pass.
+
+(* REPR. PyTreeSpec::ToStringImpl as serialization.cpp runs it — the agenda machine over the post-order node
+   array (theories/Repr.v; the text as a list of tokens: pieces of the documented notation and the texts
+   Python gives for keys, class and field names, default factory, maxlen, metadata, namespace) — computes
+   the tree-level repr: a node's text is built from its children's texts by the rule of its kind
+   (a star for a leaf, None, (a, b) with the one-element comma, [..], {k: v}, OrderedDict({..}) / OrderedDict()
+   when empty, defaultdict(factory, {..}), deque([..], maxlen=n), Name(field=..), CustomTreeNode(Cls[meta], [..])),
+   wrapped in PyTreeSpec(..., NoneIsLeaf, namespace='..') *)
+Theorem C08_cpp_repr_loop :
+  forall s, wf_stree (stree_of s) = true -> arr_repr (spec_of s) = ss_repr s.
+Proof. exact arr_repr_spec. Qed.
+Print Assumptions C08_cpp_repr_loop.
+
+(* the repr of the treespec of every tree that flattens exists (no internal error) and renders exactly
+   one star per leaf *)
+Theorem C08_repr_one_star_per_leaf :
+  forall c o ls sp, wf_obj o = true -> flatten c o = Ok (ls, sp) ->
+  exists r, arr_repr sp = Ok r /\ count_stars r = length ls.
+Proof. exact repr_of_flattened. Qed.
+Print Assumptions C08_repr_one_star_per_leaf.
+
+(* the suffixes: ", NoneIsLeaf" is there exactly for none_is_leaf treespecs, ", namespace=" exactly for a
+   non-empty namespace (the body of a repr contains neither piece) *)
+Theorem C08_repr_suffixes :
+  forall nil ns body,
+  (In (RL LNil) (wrap nil ns body) <-> nil = true \/ In (RL LNil) body) /\
+  (In (RL LNsPre) (wrap nil ns body) <-> ns <> 0%Z \/ In (RL LNsPre) body).
+Proof. exact wrap_suffixes. Qed.
+Print Assumptions C08_repr_suffixes.
